@@ -952,6 +952,14 @@ fn c11_line_class_x(x: &str, a: &str, b: &str) -> &'static str {
         if (1..t.len()).any(|i| t[i].is_comment() && t[i - 1].kind == Kind::Op(r::Op::Colon)) {
             return "comment-after-case-label";
         }
+        // a comment on the same source line directly after a conditional directive that the parser
+        // gives a line of its own (`if a {$IFDEF X} {c} and b`): the comment is measured as if it
+        // followed the statement text before the directive
+        if (1..t.len()).any(|i| {
+            t[i].is_comment() && matches!(t[i - 1].kind, Kind::Conditional(_)) && !x[t[i].ws..t[i].start].contains(['\n', '\r'])
+        }) {
+            return "comment-on-the-line-of-a-conditional-directive";
+        }
     }
     c
 }
